@@ -313,3 +313,127 @@ def miri_stage(prop, mode, cases_per_proc, nprocs=16):
         note = "miri stage: %d interpreter processes x %d small cases of %s%s in %.0fs, %d with reports" % (nprocs, cases_per_proc, prop, "/" + mode if mode else "", time.time() - t0, reports)
         return (note, results, {})
     return stage
+
+
+# ---------------------------------------------------------------------------------------------- C09: exact arithmetic vectors
+def c09_arith_vectors(seed, tier, rundir):
+    """operand tuples with the exact result computed by Python's unbounded integers / IEEE doubles, so that the oracle of the
+    vector shard shares no arithmetic primitive with the implementation. One line: word TAB a TAB b TAB kind TAB value
+    (kind: exact = representable i128 result; wrap = exact result is outside i128, value is its two's-complement wrap;
+    div0; flag; real = hex bits of the double)"""
+    import struct
+    rng = random.Random(seed * 15485863 + 11)
+    n = 40000 if tier == "quick" else 1000000
+    I_MIN, I_MAX, M = -(1 << 127), (1 << 127) - 1, 1 << 128
+    def gi():
+        k = rng.randrange(12)
+        if k == 0: return rng.choice([0, 1, -1, 2, -2])
+        if k == 1: return rng.choice([I_MIN, I_MAX, I_MIN + 1, I_MAX - 1])
+        if k == 2: return rng.choice([-(1 << 63), (1 << 63) - 1, 1 << 63, 1 << 64, (1 << 64) - 1, -(1 << 64)])
+        if k in (3, 4):
+            e = rng.randrange(127)
+            return rng.choice([1, -1]) * ((1 << e) + rng.choice([-1, 0, 1]))
+        if k == 5: return rng.randrange(-1000, 1000)
+        return rng.randrange(I_MIN, I_MAX + 1) >> rng.randrange(128)
+    def wrap(x):
+        x &= M - 1
+        return x - M if x >> 127 else x
+    def fbits(x):
+        return "%016x" % struct.unpack("<Q", struct.pack("<d", x))[0]
+    def gr():
+        k = rng.randrange(8)
+        if k == 0: return rng.choice([0.0, -0.0, 1.0, -1.0, 0.5, 1.5, 2.5, -2.5])
+        if k == 1: return rng.choice([float("inf"), float("-inf"), 5e-324, -5e-324, 2.2250738585072014e-308, 1.7976931348623157e308])
+        if k == 2: return float(rng.randrange(-(1 << 60), 1 << 60))
+        return struct.unpack("<d", struct.pack("<Q", rng.getrandbits(64)))[0]
+    out = []
+    int2 = ["+", "-", "*", "/", "rem", "min", "max", "<", "<=", ">", ">=", "==", "<>", "band", "bor", "bxor", "bsl", "bsr"]
+    int1 = ["neg", "abs", "bnot", "popcnt", ">real", "zero?", "positive?", "negative?"]
+    real2 = ["+", "-", "*", "/", "<", "<=", ">", ">=", "==", "<>", "min", "max"]
+    while len(out) < n:
+        kind = rng.randrange(10)
+        if kind < 5:
+            w = rng.choice(int2)
+            a, b = gi(), gi()
+            if w in ("bsl", "bsr"):
+                b = rng.randrange(128)
+            if w in ("/", "rem") and rng.random() < 0.2:
+                b = 0
+            if w in ("/", "rem") and b == 0:
+                out.append("%s\t%d\t%d\tdiv0\t0" % (w, a, b)); continue
+            if w == "+": r = a + b
+            elif w == "-": r = a - b
+            elif w == "*": r = a * b
+            elif w == "/":
+                q = abs(a) // abs(b)
+                r = q if (a < 0) == (b < 0) else -q
+            elif w == "rem":
+                q = abs(a) // abs(b)
+                q = q if (a < 0) == (b < 0) else -q
+                r = a - b * q
+            elif w == "min": r = min(a, b)
+            elif w == "max": r = max(a, b)
+            elif w == "band": r = a & b
+            elif w == "bor": r = a | b
+            elif w == "bxor": r = a ^ b
+            elif w == "bsl": r = a << b
+            elif w == "bsr": r = a >> b
+            else:
+                f = {"<": a < b, "<=": a <= b, ">": a > b, ">=": a >= b, "==": a == b, "<>": a != b}[w]
+                out.append("%s\t%d\t%d\tflag\t%s" % (w, a, b, "true" if f else "false")); continue
+            if I_MIN <= r <= I_MAX:
+                out.append("%s\t%d\t%d\texact\t%d" % (w, a, b, r))
+            else:
+                out.append("%s\t%d\t%d\twrap\t%d" % (w, a, b, wrap(r)))
+        elif kind < 7:
+            w = rng.choice(int1)
+            a = gi()
+            if w == "neg": r = -a
+            elif w == "abs": r = abs(a)
+            elif w == "bnot": r = ~a
+            elif w == "popcnt": r = bin(a & (M - 1)).count("1")
+            elif w == ">real":
+                out.append("%s\t%d\t-\treal\t%s" % (w, a, fbits(float(a)))); continue
+            else:
+                f = {"zero?": a == 0, "positive?": a > 0, "negative?": a < 0}[w]
+                out.append("%s\t%d\t-\tflag\t%s" % (w, a, "true" if f else "false")); continue
+            if I_MIN <= r <= I_MAX:
+                out.append("%s\t%d\t-\texact\t%d" % (w, a, r))
+            else:
+                out.append("%s\t%d\t-\twrap\t%d" % (w, a, wrap(r)))
+        elif kind < 9:
+            w = rng.choice(real2)
+            a, b = gr(), gr()
+            if a != a or b != b:
+                continue
+            if w == "/" and rng.random() < 0.2:
+                b = rng.choice([0.0, -0.0])
+            if w == "/" and b == 0.0:
+                out.append("%s\tr%s\tr%s\tdiv0\t0" % (w, fbits(a), fbits(b))); continue
+            if w in ("+", "-", "*", "/"):
+                try:
+                    r = {"+": a + b, "-": a - b, "*": a * b}[w] if w != "/" else a / b
+                except OverflowError:
+                    continue
+                if r != r:
+                    out.append("%s\tr%s\tr%s\tnan\t0" % (w, fbits(a), fbits(b)))
+                else:
+                    out.append("%s\tr%s\tr%s\treal\t%s" % (w, fbits(a), fbits(b), fbits(r)))
+            elif w in ("min", "max"):
+                if a == b:
+                    continue  # equal operands (incl. +-0): either may be returned
+                r = min(a, b) if w == "min" else max(a, b)
+                out.append("%s\tr%s\tr%s\treal\t%s" % (w, fbits(a), fbits(b), fbits(r)))
+            else:
+                f = {"<": a < b, "<=": a <= b, ">": a > b, ">=": a >= b, "==": a == b, "<>": a != b}[w]
+                out.append("%s\tr%s\tr%s\tflag\t%s" % (w, fbits(a), fbits(b), "true" if f else "false"))
+        else:
+            # >int of a double inside the i128 range: truncation
+            a = gr()
+            if a != a or abs(a) >= 1.7e38:
+                continue
+            out.append(">int\tr%s\t-\texact\t%d" % (fbits(a), int(a)))
+    path = os.path.join(rundir, "arith_vectors.tsv")
+    with open(path, "w") as f:
+        f.write("\n".join(out) + "\n")
+    return {"XV_ARITH_VECTORS": path}
